@@ -49,6 +49,10 @@ def check_kahn(ctx: Ctx, oid: str):
     ctx.ob(oid, "R16 PAIRED-EFFECTS", ts, "each stored edge is counted once in the target's in-degree", ok, "", node=ts.node)
     tt = ast.unparse(ts.node)
     ctx.ob(oid, "R16 PAIRED-EFFECTS", ts, "queue starts with exactly the zero in-degree nodes; output order is pop order (FIFO)", "deque((v for v in node_list if in_degree[v] == 0))" in tt and "v = queue.popleft()" in tt and "result.append(v)" in tt, "", node=ts.node)
+    pops = [n for n in own_nodes(ts.node) if isinstance(n, ast.Call) and ast.unparse(n.func) == "queue.popleft"]
+    if len(pops) == 1:
+        lp_ = cfg.stmt_node_containing(pops[0]).loop
+        ctx.ob(oid, "R2 BUDGET-EXIT", ts, "the output loop runs until the queue of ready nodes is empty", lp_ is not None and lp_.kind == "test" and ast.unparse(lp_.ast) in ("queue", "len(queue) > 0", "len(queue) != 0", "0 < len(queue)"), f"loop test `{ast.unparse(lp_.ast) if lp_ is not None and lp_.kind == 'test' else '?'}`: ready nodes left in the queue are missing from the output, and an acyclic graph is reported as cyclic", node=pops[0])
     for s in result_sites(ts):
         at = gv.guard_atoms(s.node)
         if "INFEASIBLE" in s.statuses:
